@@ -34,6 +34,7 @@ import (
 	"syscall"
 	"testing"
 	"time"
+	"unsafe"
 )
 
 type c08Ev struct {
@@ -48,11 +49,13 @@ type c08Ev struct {
 	N1  int    `json:"n1"`
 }
 
-// The lock under test never lives alone: it is the first field of a cell whose next 4 bytes are
+// Where the lock under test lives (lock operations must neither look at nor touch the bytes next to it):
 //
-//	layout 0: zero, layout 1: a non-zero datum, layout 2: another Spinlock that is held throughout
-//
-// (lock operations must neither look at nor touch those bytes).
+//	0  heap cell, the next 4 bytes are zero          1  heap cell, the next 4 bytes hold a non-zero datum
+//	2  heap cell, followed by another Spinlock that is held throughout
+//	3  the last 4 bytes of a page whose successor is inaccessible (a wider access faults)
+//	4  a package-level variable (data segment), followed by a non-zero datum
+//	5  (stress only) two adjacent locks on one cache line, both in use by different groups of tasks
 type c08Cell struct {
 	l  Spinlock
 	nb Spinlock
@@ -60,18 +63,63 @@ type c08Cell struct {
 
 const c08Datum = 0x00010001
 
-func c08NewCell(layout int) *c08Cell {
-	c := &c08Cell{}
-	switch layout % 3 {
-	case 1:
-		atomic.StoreUint32(&c.nb.state, c08Datum)
-	case 2:
-		c.nb.Acquire()
-	}
-	return c
+var c08Global c08Cell
+
+type c08Place struct {
+	lock *Spinlock
+	nb   *Spinlock // nil: the neighbouring bytes cannot be read (guard page)
+	nb0  int
 }
 
-func c08Neighbour(c *c08Cell) int { return int(atomic.LoadUint32(&c.nb.state)) }
+var c08GuardMem []byte
+
+func c08NewPlace(layout int) c08Place {
+	var c *c08Cell
+	switch layout % 5 {
+	case 3:
+		if c08GuardMem == nil {
+			m, err := syscall.Mmap(-1, 0, 2*4096, syscall.PROT_READ|syscall.PROT_WRITE, syscall.MAP_ANON|syscall.MAP_PRIVATE)
+			if err == nil && syscall.Mprotect(m[4096:], syscall.PROT_NONE) == nil {
+				c08GuardMem = m
+			}
+		}
+		if c08GuardMem != nil {
+			l := (*Spinlock)(unsafe.Pointer(&c08GuardMem[4096-4]))
+			atomic.StoreUint32(&l.state, 0)
+			return c08Place{lock: l}
+		}
+		c = &c08Cell{}
+	case 4:
+		c08Global = c08Cell{}
+		c = &c08Global
+		atomic.StoreUint32(&c.nb.state, c08Datum)
+	default:
+		c = &c08Cell{}
+		switch layout % 5 {
+		case 1:
+			atomic.StoreUint32(&c.nb.state, c08Datum)
+		case 2:
+			c.nb.Acquire()
+		}
+	}
+	return c08Place{lock: &c.l, nb: &c.nb, nb0: int(atomic.LoadUint32(&c.nb.state))}
+}
+
+func (p c08Place) nbEvent() c08Ev {
+	if p.nb == nil {
+		return c08Ev{K: "nb"}
+	}
+	return c08Ev{K: "nb", N0: p.nb0, N1: int(atomic.LoadUint32(&p.nb.state))}
+}
+
+// blocking acquire: through the API, or - att >= 0 - the arch routine with another spin budget than Acquire's
+func c08Acquire(l *Spinlock, att int64) {
+	if att < 0 {
+		l.Acquire()
+		return
+	}
+	archAcquireSpinlock(&l.state, uint32(att))
+}
 
 func c08Deadline() time.Duration {
 	if s, err := strconv.Atoi(os.Getenv("VERIF_C08_DEADLINE_MS")); err == nil && s > 0 {
@@ -109,7 +157,6 @@ type c08Worker struct {
 }
 
 type c08Case struct {
-	cell    *c08Cell
 	lock    *Spinlock
 	counter int
 	cleanup int32
@@ -362,6 +409,53 @@ func (cs *c08Case) finish() bool {
 	return true
 }
 
+// Cooperative schedule: the holder only gives the lock up after the waiter has called yieldFn N times (on one
+// core the holder would not even run before the waiter yields).  The blocked Acquire must get there: task 1 holds,
+// task 2 waits, the hook counts.  Events are the ordinary ones; a waiter that does not reach N yields within the
+// deadline is reported as stuck (inconclusive - how fast it polls is not the harness's business; the extracted
+// model bounds the number of polls between two yields).
+var c08Yields int64
+
+// (the assembly calls yieldFn without a closure context: the hook must be a plain function)
+func c08CountingYield() { atomic.AddInt64(&c08Yields, 1); runtime.Gosched() }
+
+func c08YieldProbe(enc *json.Encoder, n *int) bool {
+	const want = 40
+	var lock Spinlock
+	atomic.StoreInt64(&c08Yields, 0)
+	yieldFn = c08CountingYield
+	defer func() { yieldFn = runtime.Gosched }()
+	emit := func(e c08Ev) { enc.Encode(e); *n++ }
+	emit(c08Ev{K: "call", T: 1, Op: "acq", Res: "ok"})
+	lock.Acquire()
+	emit(c08Ev{K: "ok", T: 1, C: 0})
+	emit(c08Ev{K: "call", T: 2, Op: "acq", Res: "ok"})
+	var done int32
+	go func() { lock.Acquire(); atomic.StoreInt32(&done, 1) }()
+	t0 := time.Now()
+	for atomic.LoadInt64(&c08Yields) < want {
+		if time.Since(t0) > c08Deadline() {
+			return false
+		}
+		runtime.Gosched()
+	}
+	emit(c08Ev{K: "rel", T: 1})
+	lock.Release()
+	emit(c08Ev{K: "relret", T: 1})
+	for atomic.LoadInt32(&done) == 0 {
+		if time.Since(t0) > 2*c08Deadline() {
+			return false
+		}
+		runtime.Gosched()
+	}
+	emit(c08Ev{K: "ok", T: 2, C: 1})
+	emit(c08Ev{K: "rel", T: 2})
+	lock.Release()
+	emit(c08Ev{K: "relret", T: 2})
+	emit(c08Ev{K: "reset"})
+	return true
+}
+
 func TestVerifC08Sched(t *testing.T) {
 	defer func(f func()) { yieldFn = f }(yieldFn)
 	yieldFn = runtime.Gosched
@@ -386,6 +480,12 @@ func TestVerifC08Sched(t *testing.T) {
 	sc := bufio.NewScanner(in)
 	sc.Buffer(make([]byte, 1<<20), 1<<20)
 	ncases, nev := 0, 0
+	if !c08YieldProbe(enc, &nev) {
+		enc.Encode(c08Ev{K: "stuck", Op: "yield"})
+		bw.Flush()
+		out.Close()
+		syscall.Exit(0)
+	}
 	for sc.Scan() {
 		line := sc.Bytes()
 		if len(line) == 0 {
@@ -402,9 +502,12 @@ func TestVerifC08Sched(t *testing.T) {
 		if err := json.Unmarshal(line, &sched); err != nil {
 			t.Fatalf("bad case %q: %v", line, err)
 		}
-		cs := &c08Case{role: map[int]int{}, enc: enc, n: &nev, cell: c08NewCell(ncases)}
-		cs.lock = &cs.cell.l
-		nb0 := c08Neighbour(cs.cell)
+		place := c08NewPlace(ncases)
+		cs := &c08Case{role: map[int]int{}, enc: enc, n: &nev, lock: place.lock}
+		// yieldFn unset (as in the kernel today) for every third case: no goroutine of an earlier case is alive
+		if yieldFn = runtime.Gosched; ncases%3 == 2 {
+			yieldFn = nil
+		}
 		for i := 0; i < 3; i++ {
 			w := &c08Worker{cmd: make(chan string, 2), reply: make(chan bool, 1)}
 			cs.w = append(cs.w, w)
@@ -415,7 +518,7 @@ func TestVerifC08Sched(t *testing.T) {
 			}(w)
 		}
 		good := cs.replay(sched, grace)
-		cs.emit(c08Ev{K: "nb", N0: nb0, N1: c08Neighbour(cs.cell)})
+		cs.emit(place.nbEvent())
 		cs.emit(c08Ev{K: "reset"})
 		ncases++
 		fin := cs.finish()
@@ -437,9 +540,17 @@ func TestVerifC08Sched(t *testing.T) {
 
 // ---------------------------------------------------------------- leg T
 
+// one group of tasks hammering one lock during a stress window
+type c08Group struct {
+	lock    *Spinlock
+	counter int // protected by lock only
+	ids     []int
+}
+
+const c08MainTask = 48 // the goroutine that sets a window up (stray releases)
+
 func TestVerifC08Stress(t *testing.T) {
 	defer func(f func()) { yieldFn = f }(yieldFn)
-	yieldFn = runtime.Gosched
 	debug.SetGCPercent(-1) // see c08QuiescentGC; not restored: the test binary runs exactly one of these tests
 	seed, _ := strconv.ParseInt(os.Getenv("VERIF_SEED"), 10, 64)
 	nwin, _ := strconv.Atoi(os.Getenv("NWIN"))
@@ -460,69 +571,108 @@ func TestVerifC08Stress(t *testing.T) {
 	enc := json.NewEncoder(bw)
 	master := rand.New(rand.NewSource(seed))
 	total := 0
+	ncpu := runtime.NumCPU()
+	var shapes []map[string]interface{}
+	defer func() {
+		if b, err := json.Marshal(shapes); err == nil {
+			os.WriteFile(os.Getenv("TRACE_OUT")+".shapes", b, 0644)
+		}
+	}()
 	for w := 0; w < nwin; w++ {
-		nth := []int{2, 3, 4, 8, 16, 16, 16, 12}[master.Intn(8)]
+		// ---- the shape of the window: every dimension of the quantifier is cycled through, the rest is drawn
+		light := w%2 == 1
+		// number of tasks: one, a few, one per core, more than cores (those cannot be pinned to threads)
+		nth := []int{2, 16, 3, 1, 8, 24, 16, 4, 12, 40, 16, 16}[(w+int(seed))%12]
 		if fix, err := strconv.Atoi(os.Getenv("NTHREADS")); err == nil && fix > 0 {
 			nth = fix
 		}
-		tryPct := []int{20, 40, 70, 100}[master.Intn(4)]
-		light := w%2 == 1
-		if light && master.Intn(3) != 0 {
-			nth = 16
+		pinned := nth <= ncpu && nth <= 16
+		// call mix: only blocking acquires ... only try-acquires
+		tryPct := []int{0, 20, 40, 70, 100}[master.Intn(5)]
+		// spin budget of the blocking acquire: Acquire's own, or 0 / 2 / 64 / the largest value; yieldFn set or unset.
+		// A waiter that (practically) never yields needs a thread of its own, or the holder may never run again.
+		att := int64(-1)
+		yieldFn = runtime.Gosched
+		if pinned {
+			att = []int64{-1, 0, -1, 2, 64, 0xffffffff}[master.Intn(6)]
+			if master.Intn(4) == 0 {
+				yieldFn = nil
+			}
 		}
-		cell := c08NewCell(2*w + w/2)
-		lock := &cell.l
-		nb0 := c08Neighbour(cell)
-		var counter int // protected by lock only
+		layout := (2*w + w/2) % 6
+		place := c08NewPlace(layout)
+		shapes = append(shapes, map[string]interface{}{"tasks": nth, "pinned": pinned, "light": light, "try_pct": tryPct,
+			"spin_budget": att, "yield_set": yieldFn != nil, "placement": layout, "stray_release": w%3 != 2})
+		groups := []*c08Group{{lock: place.lock}}
+		if layout == 5 && nth >= 2 { // two adjacent locks, both in use
+			groups = append(groups, &c08Group{lock: place.nb})
+		}
+		for th := 0; th < nth; th++ {
+			g := groups[th%len(groups)]
+			g.ids = append(g.ids, th)
+		}
 		var seq int64
 		logs := make([][]c08Ev, nth)
 		seeds := make([]int64, nth)
 		for i := range seeds {
 			seeds[i] = master.Int63()
 		}
-		var pre, post []c08Ev
+		pre, post := make([][]c08Ev, len(groups)), make([][]c08Ev, len(groups))
 		stray := w%3 != 2
 		if stray { // "Release while the lock is free has no effect": nobody has touched the lock yet
-			s0 := atomic.AddInt64(&seq, 1)
-			lock.Release()
-			pre = []c08Ev{{Seq: s0, K: "srel", T: 16}, {Seq: atomic.AddInt64(&seq, 1), K: "srelret", T: 16}}
+			for gi, g := range groups {
+				s0 := atomic.AddInt64(&seq, 1)
+				g.lock.Release()
+				pre[gi] = []c08Ev{{Seq: s0, K: "srel", T: c08MainTask}, {Seq: atomic.AddInt64(&seq, 1), K: "srelret", T: c08MainTask}}
+			}
 		}
 		var wg gosync.WaitGroup
-		var ready int32 // spin barrier: the threads enter the window within a few hundred nanoseconds
+		var ready int32 // spin barrier: the tasks enter the window within a few hundred nanoseconds
 		for th := 0; th < nth; th++ {
 			wg.Add(1)
-			go func(th int) {
+			go func(th int, g *c08Group) {
 				defer wg.Done()
-				runtime.LockOSThread()
-				defer runtime.UnlockOSThread()
+				if pinned {
+					runtime.LockOSThread()
+					defer runtime.UnlockOSThread()
+				}
+				lock := g.lock
 				rng := rand.New(rand.NewSource(seeds[th]))
 				local := make([]c08Ev, 0, 4*nops)
+				defer func() { logs[th] = local }()
+				// a lock operation that touches memory it has no business with (the page behind the lock) faults
+				debug.SetPanicOnFault(true)
+				defer func() {
+					if r := recover(); r != nil {
+						local = append(local, c08Ev{Seq: atomic.AddInt64(&seq, 1), K: "fault", T: th})
+					}
+				}()
 				atomic.AddInt32(&ready, 1)
 				for t0 := time.Now(); atomic.LoadInt32(&ready) < int32(nth) && time.Since(t0) < c08Deadline(); {
 					runtime.Gosched()
 				}
 				if light {
 					// light window: the only instrumentation is inside the critical section, so that
-					// nothing staggers the threads in front of the atomic operation under test; failed
+					// nothing staggers the tasks in front of the atomic operation under test; failed
 					// try-acquires are not recorded, the call/relret events are written next to the
 					// ok/rel events (a call may always be reported early; nothing depends on relret)
-					for i, att := 0, 0; i < 2*nops && att < 400*nops; att++ {
+					for i, attempts := 0, 0; i < 2*nops && attempts < 400*nops; attempts++ {
 						isTry := rng.Intn(100) < tryPct
 						if isTry {
 							if !lock.TryToAcquire() {
 								continue
 							}
 						} else {
-							lock.Acquire()
+							c08Acquire(lock, att)
 						}
-						c := counter
+						c := g.counter
 						s1 := atomic.AddInt64(&seq, 2)
 						op := "acq"
 						if isTry {
 							op = "try"
 						}
 						local = append(local, c08Ev{Seq: s1 - 1, K: "call", T: th, Op: op, Res: "ok"}, c08Ev{Seq: s1, K: "ok", T: th, C: c})
-						counter = c + 1
+						g.counter = c + 1
 						if rng.Intn(4) == 0 {
 							runtime.Gosched()
 						}
@@ -531,7 +681,6 @@ func TestVerifC08Stress(t *testing.T) {
 						lock.Release()
 						i++
 					}
-					logs[th] = local
 					return
 				}
 				for i := 0; i < nops; i++ {
@@ -540,10 +689,10 @@ func TestVerifC08Stress(t *testing.T) {
 						ci := len(local)
 						local = append(local, c08Ev{Seq: atomic.AddInt64(&seq, 1), K: "call", T: th, Op: "try"})
 						if lock.TryToAcquire() {
-							c := counter
+							c := g.counter
 							local = append(local, c08Ev{Seq: atomic.AddInt64(&seq, 1), K: "ok", T: th, C: c})
 							local[ci].Res = "ok"
-							counter = c + 1
+							g.counter = c + 1
 							got = true
 						} else {
 							local = append(local, c08Ev{Seq: atomic.AddInt64(&seq, 1), K: "fail", T: th, Eq: -1})
@@ -551,10 +700,10 @@ func TestVerifC08Stress(t *testing.T) {
 						}
 					} else {
 						local = append(local, c08Ev{Seq: atomic.AddInt64(&seq, 1), K: "call", T: th, Op: "acq", Res: "ok"})
-						lock.Acquire()
-						c := counter
+						c08Acquire(lock, att)
+						c := g.counter
 						local = append(local, c08Ev{Seq: atomic.AddInt64(&seq, 1), K: "ok", T: th, C: c})
-						counter = c + 1
+						g.counter = c + 1
 						got = true
 					}
 					if got {
@@ -566,8 +715,7 @@ func TestVerifC08Stress(t *testing.T) {
 						local = append(local, c08Ev{Seq: atomic.AddInt64(&seq, 1), K: "relret", T: th})
 					}
 				}
-				logs[th] = local
-			}(th)
+			}(th, groups[th%len(groups)])
 		}
 		fin := make(chan struct{})
 		go func() { wg.Wait(); close(fin) }()
@@ -579,38 +727,47 @@ func TestVerifC08Stress(t *testing.T) {
 			out.Close()
 			syscall.Exit(0)
 		}
-		if stray { // every thread has stopped and released what it took: the lock is free again
-			s0 := atomic.AddInt64(&seq, 1)
-			lock.Release()
-			post = []c08Ev{{Seq: s0, K: "srel", T: 16}, {Seq: atomic.AddInt64(&seq, 1), K: "srelret", T: 16},
-				{Seq: atomic.AddInt64(&seq, 1), K: "call", T: 16, Op: "try"}}
-			// ... and can still be taken
-			if lock.TryToAcquire() {
-				c := counter
-				post[2].Res = "ok"
-				post = append(post, c08Ev{Seq: atomic.AddInt64(&seq, 1), K: "ok", T: 16, C: c})
-				counter = c + 1
-				post = append(post, c08Ev{Seq: atomic.AddInt64(&seq, 1), K: "rel", T: 16})
-				lock.Release()
-				post = append(post, c08Ev{Seq: atomic.AddInt64(&seq, 1), K: "relret", T: 16})
-			} else {
-				post[2].Res = "fail"
-				post = append(post, c08Ev{Seq: atomic.AddInt64(&seq, 1), K: "fail", T: 16, Eq: -1})
+		yieldFn = runtime.Gosched
+		if stray { // every task has stopped and released what it took: the lock is free again
+			for gi, g := range groups {
+				s0 := atomic.AddInt64(&seq, 1)
+				g.lock.Release()
+				po := []c08Ev{{Seq: s0, K: "srel", T: c08MainTask}, {Seq: atomic.AddInt64(&seq, 1), K: "srelret", T: c08MainTask},
+					{Seq: atomic.AddInt64(&seq, 1), K: "call", T: c08MainTask, Op: "try"}}
+				// ... and can still be taken
+				if g.lock.TryToAcquire() {
+					c := g.counter
+					po[2].Res = "ok"
+					po = append(po, c08Ev{Seq: atomic.AddInt64(&seq, 1), K: "ok", T: c08MainTask, C: c})
+					g.counter = c + 1
+					po = append(po, c08Ev{Seq: atomic.AddInt64(&seq, 1), K: "rel", T: c08MainTask})
+					g.lock.Release()
+					po = append(po, c08Ev{Seq: atomic.AddInt64(&seq, 1), K: "relret", T: c08MainTask})
+				} else {
+					po[2].Res = "fail"
+					po = append(po, c08Ev{Seq: atomic.AddInt64(&seq, 1), K: "fail", T: c08MainTask, Eq: -1})
+				}
+				post[gi] = po
 			}
 		}
-		evs := append([]c08Ev{}, pre...)
-		evs = append(evs, post...)
-		for _, lg := range logs {
-			evs = append(evs, lg...)
+		// one case per lock: what happens on one lock is judged independently of the lock next to it
+		for gi, g := range groups {
+			evs := append([]c08Ev{}, pre[gi]...)
+			evs = append(evs, post[gi]...)
+			for _, th := range g.ids {
+				evs = append(evs, logs[th]...)
+			}
+			sort.Slice(evs, func(i, j int) bool { return evs[i].Seq < evs[j].Seq })
+			for _, e := range evs {
+				enc.Encode(e)
+			}
+			if len(groups) == 1 {
+				enc.Encode(place.nbEvent())
+			}
+			enc.Encode(c08Ev{K: "reset"})
+			total += len(evs) + 2
 		}
-		sort.Slice(evs, func(i, j int) bool { return evs[i].Seq < evs[j].Seq })
-		for _, e := range evs {
-			enc.Encode(e)
-		}
-		enc.Encode(c08Ev{K: "nb", N0: nb0, N1: c08Neighbour(cell)})
-		enc.Encode(c08Ev{K: "reset"})
-		total += len(evs) + 2
-		c08QuiescentGC(w*16 + 15) // all threads of the window have been joined
+		c08QuiescentGC(w*16 + 15) // all tasks of the window have been joined
 	}
 	os.Stdout.WriteString("VERIF-STATS windows=" + strconv.Itoa(nwin) + " events=" + strconv.Itoa(total) + "\n")
 }
